@@ -73,13 +73,13 @@ theorem expectLoop_spec : ∀ (f : Nat) (pats : List Pat) (buf : Bytes) (ri : RI
     simp only at hout
     cases hout with
     | done h1 h2 => rw [hmax] at h1; simp at h1
-    | expired hrem =>
+    | expired hnd hrem =>
       refine ⟨[], ReadFrame.refl s, by simp, by simp, ?_⟩
       intro e he
       simp only [Except.error.injEq] at he
       subst he
       exact ⟨Or.inl rfl, fun _ => rfl⟩
-    | ioErr rem rec s' e hrem hio =>
+    | ioErr rem rec s' e hnd hrem hio =>
       refine ⟨[rec], hio.frame, ?_, by simp, ?_⟩
       · intro r hr
         simp only [List.mem_singleton] at hr
@@ -93,7 +93,7 @@ theorem expectLoop_spec : ∀ (f : Nat) (pats : List Pat) (buf : Bytes) (ri : RI
           · exact Or.inl h
           · exact Or.inr (Or.inl h)
         · rw [dataOf_cons_none _ _ herr.1]; rfl
-    | death rem rec s1 b x m hrem hio hchk =>
+    | death rem rec s1 b x m hnd hrem hio hchk =>
       refine ⟨[rec], chunk_frame hio, ?_, by simp, ?_⟩
       · intro r hr
         simp only [List.mem_singleton] at hr
@@ -102,7 +102,7 @@ theorem expectLoop_spec : ∀ (f : Nat) (pats : List Pat) (buf : Bytes) (ri : RI
         simp only [Except.error.injEq] at he
         subst he
         exact ⟨Or.inr (Or.inr ⟨x, m, rfl⟩), fun h => by rcases h with h | h <;> simp at h⟩
-    | chunk rem rec s1 b hrem hio hchk =>
+    | chunk rem rec s1 b hnd hrem hio hchk =>
       have hfr := chunk_frame hio
       have hdata := (hio.ok b rfl).1
       have hbne : b ≠ [] := (hio.ok b rfl).2.2 hwf (by rw [maxRead_none _ _ hmax]; exact hc)
